@@ -14,6 +14,9 @@ import builtins
 
 @model(np.array)
 def m_np_array(it, obj, *a, **k):
+    from .tensor import STensor
+    if isinstance(obj, STensor):
+        return STensor(obj.shape_, obj.fn, obj.dtype, obj.name)
     if isinstance(obj, SSeq):
         return SSeq(it.cx, obj.ec, obj.name, obj.length, obj.arr, np.ndarray)
     if isinstance(obj, (list, tuple)) and any(isinstance(x, Symbolic) for x in obj):
